@@ -161,13 +161,14 @@ class C15(Prop):
         # invocation (or a foreign attribute), not a list of this one: the impls are those of the request without it
         # (hand-written; real macro only)
         raw_in = []
-        for k, (mode, attr, item, extra) in enumerate(PATH_NAMED_LISTS):
-            raw_in.append((mode, attr, item.replace('@X@', ''), dict(k=k, with_path=False)))
-            raw_in.append((mode, attr, item.replace('@X@', extra), dict(k=k, with_path=True)))
+        for k, ((mode, attr, item), (mode2, attr2, item2)) in enumerate(PATH_NAMED_LISTS):
+            raw_in.append((mode2, attr2, item2, dict(k=k, with_path=False)))
+            raw_in.append((mode, attr, item, dict(k=k, with_path=True)))
         raw = R.run_raw(raw_in)
         for a, b in zip(raw[0::2], raw[1::2]):
             if impl_parts(a.actual) != impl_parts(b.actual) or not impl_parts(a.actual):
-                failures.append(dict(**{'class': 'path-named-attribute-read-as-a-list', 'mode': 'split'}, input=b.input_text(),
+                failures.append(dict(**{'class': 'path-named-attribute-misread', 'mode': 'split'}, input=b.input_text(),
+                                     equivalent_request=a.input_text(),
                                      expected=[p[:2] for p in impl_parts(a.actual)][:6], observed=[p[:2] for p in impl_parts(b.actual)][:6]))
             else:
                 validated += 1
@@ -225,13 +226,22 @@ EQUIVALENT_REQUESTS = [
      ('D', '', '#[derive_ex(Debug, Clone, PartialEq)] enum E { A(#[partial_eq(ignore)] u8), B }')),
 ]
 
-# (entry point, argument list, item with @X@ where the path-named attribute goes, that attribute)
+# an attribute that names the macro by PATH: under the attribute macro, `derive_ex::derive_ex` / `::derive_ex::derive_ex` (the
+# name of this crate in front) is one more list of the request - read AND removed, like the bare spelling (fix 2 of round 12);
+# any other path (`foo::derive_ex`, three segments) is a foreign attribute, and so is every path under `#[derive(Ex)]`, where a
+# helper attribute cannot be a path.  ((entry point, arguments, item), the request it is worth)
 PATH_NAMED_LISTS = [
-    ('A', 'Clone', '@X@ struct X(u8);', '#[derive_ex::derive_ex(Debug)]'),
-    ('A', 'Clone, Default', '@X@ enum E<T> { #[default] A, B(T) }', '#[::derive_ex::derive_ex(Debug, PartialEq)]'),
-    ('D', '', '#[derive_ex(PartialEq)] @X@ struct X { a: u8 }', '#[derive_ex::derive_ex(Debug)]'),
-    ('A', 'Debug', '@X@ struct X<T>(T);', '#[foo::derive_ex(Clone)]'),
-    ('D', '', '#[derive_ex(Hash, PartialEq)] @X@ enum E { A { x: u8 }, B }', '#[foo::bar::derive_ex]'),
+    (('A', 'Clone', '#[derive_ex::derive_ex(Debug)] struct X(u8);'), ('A', 'Clone, Debug', 'struct X(u8);')),
+    (('A', 'Clone, Default', '#[::derive_ex::derive_ex(Debug, PartialEq)] enum E<T> { #[default] A, B(T) }'),
+     ('A', 'Clone, Default, Debug, PartialEq', 'enum E<T> { #[default] A, B(T) }')),
+    (('A', 'PartialEq', '#[::derive_ex::derive_ex(Hash)] #[derive_ex(Debug)] struct X(#[eq(key = $.len())] String);'),
+     ('A', 'PartialEq, Hash, Debug', 'struct X(#[eq(key = $.len())] String);')),
+    (('A', 'Clone', 'struct X<T>(#[::derive_ex::derive_ex(Clone(bound()))] T, #[derive_ex::derive_ex(Clone)] u8);'),
+     ('A', 'Clone', 'struct X<T>(#[derive_ex(Clone(bound()))] T, #[derive_ex(Clone)] u8);')),
+    (('D', '', '#[derive_ex(PartialEq)] #[derive_ex::derive_ex(Debug)] struct X { a: u8 }'), ('D', '', '#[derive_ex(PartialEq)] struct X { a: u8 }')),
+    (('A', 'Debug', '#[foo::derive_ex(Clone)] struct X<T>(T);'), ('A', 'Debug', 'struct X<T>(T);')),
+    (('A', 'Debug', '#[::derive_ex(Clone)] #[derive_ex::derive_ex::derive_ex(Clone)] #[derive_ex::Ex(Clone)] struct X<T>(T);'), ('A', 'Debug', 'struct X<T>(T);')),
+    (('D', '', '#[derive_ex(Hash, PartialEq)] #[foo::bar::derive_ex] enum E { A { x: u8 }, B }'), ('D', '', '#[derive_ex(Hash, PartialEq)] enum E { A { x: u8 }, B }')),
 ]
 
 
